@@ -9,7 +9,6 @@ package main
 import (
 	"bufio"
 	"bytes"
-	"sort"
 	"encoding/json"
 	"fmt"
 	"hash/fnv"
@@ -18,6 +17,7 @@ import (
 	"path/filepath"
 	"runtime"
 	"runtime/debug"
+	"sort"
 	"strings"
 	"syscall"
 	"time"
@@ -205,7 +205,10 @@ func init() {
 		return copyTree(op.Dir, "data")
 	}
 	ops["truncate"] = func(op *proto.Op, res *proto.Res) error { return os.Truncate(op.S, int64(op.N)) }
-	ops["sleep"] = func(op *proto.Op, res *proto.Res) error { time.Sleep(time.Duration(op.N) * time.Millisecond); return nil }
+	ops["sleep"] = func(op *proto.Op, res *proto.Res) error {
+		time.Sleep(time.Duration(op.N) * time.Millisecond)
+		return nil
+	}
 	ops["exit"] = func(op *proto.Op, res *proto.Res) error { out.Flush(); os.Exit(0); return nil }
 	ops["kill"] = func(op *proto.Op, res *proto.Res) error {
 		out.Flush()
